@@ -957,6 +957,32 @@ MUTANTS = [
                 self.kill_workers = kill_workers""", """            if kill_workers is not None and not self.shutdown:
                 self.kill_workers = kill_workers
             self.shutdown = True""")),
+    M("rt-sweep-only-folders-in-loop", ["C11", "C13"], ["R-RT-SWEEP"],
+      (RT, """            if rtype == "folder":
+                continue
+            else:
+                _unlink_resources(rtype_registry, rtype)""", """            if rtype != "folder":
+                continue
+            else:
+                _unlink_resources(rtype_registry, rtype)""")),
+    M("rt-sweep-folders-never", ["C11"], ["R-RT-SWEEP"],
+      (RT, """        if "folder" in registry:
+            _unlink_resources(registry["folder"], "folder")""", """        if "folder" not in registry:
+            _unlink_resources(registry["folder"], "folder")""")),
+    M("rt-sweep-semlock-skipped", ["C11", "C13"], ["R-RT-SWEEP"],
+      (RT, """            if rtype == "folder":
+                continue
+            else:""", """            if rtype in ("folder", "semlock"):
+                continue
+            else:""")),
+    M("relaunch-probe-polarity", ["C12"], ["R-RELAUNCH"],
+      (RT, """            if self._fd is not None:
+                # resource tracker was launched before, is it still running?""", """            if self._fd is None:
+                # resource tracker was launched before, is it still running?""")),
+    M("relaunch-reap-narrow-handler", ["C12"], ["R-RELAUNCH"],
+      (RT, """                        os.waitpid(self._pid, 0)
+                    except OSError:""", """                        os.waitpid(self._pid, 0)
+                    except InterruptedError:""")),
     # --------------------------------------------------------------- R-RT-LOOP
     M("rt-barrier-except-exception", ["C11", "C12"], ["R-RT-LOOP"],
       (RT, """                except BaseException:
